@@ -29,6 +29,12 @@ Definition mutate_world (m : mutation) (w : world) : world :=
   | _, _ => w
   end.
 
+(* an earlier request run into the same folder (always with cleanup=True) *)
+Record request := {
+  q_funcs : list mfunc; q_inputs : env; q_internal : shape_dict; q_user_int : list str; q_func_int : list str;
+  q_storage : storage_cfg; q_persist : bool
+}.
+
 Record case := {
   c_funcs : list mfunc;
   c_inputs : env;
@@ -39,7 +45,10 @@ Record case := {
   c_persist : bool;                 (* persist_memory *)
   c_fresh : bool;                   (* reload in a fresh interpreter *)
   c_xr : str;                       (* "ok" or the exception class of pipefunc's in-memory xarray labelling *)
-  c_mut : mutation                  (* negative stream: an edit of run_info.json made between the run and the reload *)
+  c_mut : mutation;                 (* negative stream: an edit of run_info.json made between the run and the reload *)
+  c_xr_coords : list str;           (* the 1-D root inputs pipefunc's in-memory labelling turns into coordinates *)
+  c_prev : list request;            (* folder re-use: requests run (and reloaded) before, in the same process, same folder *)
+  c_cleanup : bool                  (* cleanup argument of this (the last) run *)
 }.
 
 Definition root_name : str := s "F".
@@ -109,6 +118,28 @@ Definition finish (legacy : bool) (c : case) : result finished :=
                    (PEnv (pipeline_defaults (c_funcs c))) outs;
   Ok {| f_info := ri; f_outs := outs; f_world := w; f_state := st |}.
 
+(* ---------- folder re-use ---------- *)
+Definition case_of_request (q : request) : case :=
+  {| c_funcs := q_funcs q; c_inputs := q_inputs q; c_internal := q_internal q; c_user_int := q_user_int q;
+     c_func_int := q_func_int q; c_storage := q_storage q; c_persist := q_persist q; c_fresh := false;
+     c_xr := s "ok"; c_mut := MNone; c_xr_coords := []; c_prev := []; c_cleanup := true |}.
+
+(* Pipeline.map(..., run_folder=F, cleanup=True) when F is in state w0 *)
+Definition finish_in (legacy : bool) (w0 : world) (c : case) : result finished :=
+  do st <- map_run sym_body (c_funcs c) (c_inputs c) (c_internal c);
+  do ri <- create_run_info root_name version_name (c_funcs c) (c_inputs c) (user_internal c) (c_func_int c)
+                           (c_storage c) (r_shapes st);
+  do outs <- outs_of_run (c_funcs c) (normalize_storage (c_storage c)) st;
+  do w <- world_after_cleanup w0 legacy (c_persist c) ri (map (fun kv => (fst kv, PVal (snd kv))) (c_inputs c))
+                              (PEnv (pipeline_defaults (c_funcs c))) outs;
+  Ok {| f_info := ri; f_outs := outs; f_world := w; f_state := st |}.
+
+Definition empty_world : world := {| w_root := root_name; w_files := []; w_live := [] |}.
+
+(* the folder after a sequence of runs, each with cleanup=True *)
+Definition run_sequence (legacy : bool) (w0 : world) (cs : list case) : result world :=
+  fold_left (fun acc c => do w <- acc; do f <- finish_in legacy w c; Ok (f_world f)) cs (Ok w0).
+
 (* load_xarray_dataset, structure only: for every output name its dims (the axes of its MapSpec output, () otherwise);
    whether pipefunc's labelling succeeds for this request at all is an input of the case (c_xr) *)
 Definition xr_dims (ri : run_info) : result sx :=
@@ -117,6 +148,11 @@ Definition xr_dims (ri : run_info) : result sx :=
                  let axes := match find (fun a => str_eqb (aname a) n) (flat_map outs specs) with
                              | Some a => indices a | None => [] end in
                  SL [SS n; SL (map SS axes)]) (ri_all_output_names ri))).
+
+(* the coordinate values load_xarray_dataset takes from the reloaded inputs *)
+Definition xr_coords (names : list str) (inputs : list (str * pyv)) : sx :=
+  SL (map (fun n => SL [SS n; match find (fun kv => str_eqb (fst kv) n) inputs with
+                              | Some kv => sx_pyv (snd kv) | None => SNone end]) names).
 
 (* one complete reload: load_outputs for every output, RunInfo.load, load_xarray_dataset
    (which itself loads every output: a failing load_outputs makes it fail with the same class) *)
@@ -139,7 +175,8 @@ Definition reload (c : case) (w : world) : sx * world :=
     | Ok _, Some e => SErr e
     | Ok (li, _), None =>
         if str_eqb (c_xr c) (s "ok")
-        then match xr_dims (li_info li) with Ok d => SL [SS (s "ok"); d] | Err e => SErr e end
+        then match xr_dims (li_info li) with
+             | Ok d => SL [SS (s "ok"); d; xr_coords (c_xr_coords c) (li_inputs li)] | Err e => SErr e end
         else SL [SS (s "err"); SS (c_xr c)]
     end in
   (SL [SL outs; info; xr], w2).
@@ -232,10 +269,46 @@ Definition run_consistentb (root : str) (ri : run_info) (inputs : list (str * py
 Definition finished_consistent (c : case) (f : finished) : bool :=
   run_consistentb root_name (f_info f) (map (fun kv => (fst kv, PVal (snd kv))) (c_inputs c)) (f_outs f).
 
+(* cleanup=False: _compare_to_previous_run_info against the RunInfo found in the folder *)
+Definition sx_internal (o : option (list (str * ishape))) : sx :=
+  match o with
+  | None => SNone
+  | Some d => SL (map (fun kv => SL [SS (fst kv); sx_ishape (snd kv)]) (sort_kv d))
+  end.
+Definition resume_check (c : case) (f : finished) (w : world) : result unit :=
+  match fs_get (w_files w) PRunInfo with
+  | None => Ok tt                                                     (* no previous run in the folder *)
+  | Some _ =>
+      match runinfo_load version_name w with
+      | Err _ => Err ValueError                                        (* "Could not load previous run info" *)
+      | Ok (li, _) =>
+          let old := li_info li in
+          let user := match user_internal c with [] => None | d => Some d end in   (* the argument as passed *)
+          if sx_eqb (sx_internal user) (sx_internal (ri_internal_shapes old))
+             && list_eqb str_eqb (ri_mapspecs (f_info f)) (ri_mapspecs old)
+             && sx_eqb (sx_odict (fun sh => SL (map SN sh)) (ri_shapes (f_info f))) (sx_odict (fun sh => SL (map SN sh)) (ri_shapes old))
+             && sx_eqb (sx_inputs (map (fun kv => (fst kv, PVal (snd kv))) (c_inputs c))) (sx_inputs (li_inputs li))
+             && sx_eqb (sx_defaults (PEnv (pipeline_defaults (c_funcs c)))) (sx_defaults (li_defaults li))
+          then Ok tt else Err ValueError
+      end
+  end.
+
+(* the last run of the case, into the folder left by the earlier ones.  cleanup=True: the folder is emptied first.
+   cleanup=False (accepted only when internal shapes, MapSpecs, shapes, inputs and defaults equal the recorded ones):
+   everything already stored is kept and nothing is recomputed; the folder ends with the same contents as a clean run
+   of the same request (resume = uninterrupted run is C05), which is how it is modelled. *)
+Definition last_run (legacy : bool) (w0 : world) (c : case) : result finished :=
+  do f <- finish_in legacy w0 c;
+  if c_cleanup c then Ok f else do _ <- resume_check c f w0; Ok f.
+
 (* observation:  ok [ [returned outputs; RunInfo of the run; inputs; defaults]; listing; load 1; load 2 | "same"; unchanged;
-                     model-side: the run passes finished_consistent (the implementation side reports the constant true) ] *)
+                     model-side: the run passes finished_consistent (the implementation side reports the constant true);
+                     number of earlier runs into the same folder ] *)
 Definition run_with (legacy : bool) (c : case) : sx :=
-  match finish legacy c with
+  match run_sequence legacy empty_world (map case_of_request (c_prev c)) with
+  | Err e => SErr e
+  | Ok w0 =>
+  match last_run legacy w0 c with
   | Err e => SErr e
   | Ok f =>
       let st := f_state f in
@@ -249,8 +322,9 @@ Definition run_with (legacy : bool) (c : case) : sx :=
       SL [SS (s "ok");
           SL [ran; listing (f_world f); l1; (if sx_eqb l1 l2 then SS (s "same") else l2);
               SB (files_eqb (w_files w) (w_files w2));
-              SB (finished_consistent c f)]]
-  end.
+              SB (finished_consistent c f);
+              SN (length (c_prev c))]]
+  end end.
 
 Definition run (c : case) : sx := run_with false c.
 
@@ -259,8 +333,11 @@ Definition run (c : case) : sx := run_with false c.
    for a valid request, (1) what the run returned is the denotation; (2) every output whose storage persists
    reloads to exactly what the run returned, in both loads; (3) RunInfo.load gives field-wise what the run's own
    RunInfo held, with the storage choice (a 1-tuple key denoting the bare name) and MapSpec strings of the request, and the inputs/defaults that were given;
-   (4) load_xarray_dataset succeeds whenever pipefunc's own in-memory labelling of the same run does;
-   (5) loading leaves the folder's contents unchanged. *)
+   (4) load_xarray_dataset succeeds whenever pipefunc's own in-memory labelling of the same run does, and its coordinates
+       carry the values of THIS request's inputs;
+   (5) loading leaves the folder's contents unchanged.
+   All of it regardless of what was run into (and loaded from) the same folder before (c_prev): every reload returns the
+   values of the run that last wrote the folder, never anything of an earlier run. *)
 Definition kind_persists (c : case) (f : mfunc) : bool :=
   if negb (is_mapped f) then true else
   match storage_class (normalize_storage (c_storage c)) (output_key_of f) with
@@ -287,8 +364,9 @@ Definition load_ok (c : case) (ran_outs : list sx) (ran_info ran_inputs ran_defa
       && str_eqb t (s "ok") && sx_eqb info ran_info && sx_eqb inputs ran_inputs && sx_eqb defaults ran_defaults
       && (if str_eqb (c_xr c) (s "ok")
           then match xr with
-               | SL [SS t'; SL vars] =>
+               | SL [SS t'; SL vars; coords] =>
                    str_eqb t' (s "ok")
+                   && sx_eqb coords (xr_coords (c_xr_coords c) (map (fun kv => (fst kv, PVal (snd kv))) (c_inputs c)))
                    && forallb (fun f => match fspec f with
                                         | Some ms => forallb (fun a => match sx_assoc vars (aname a) with
                                                                        | Some d => sx_eqb d (SL (map SS (indices a)))
@@ -311,7 +389,7 @@ Definition spec_ok (c : case) (o : sx) : bool :=
   | Err _ => true
   | Ok d =>
       match o with
-      | SL [SS t; SL [SL [SL ran_outs; ran_info; ran_inputs; ran_defaults]; _; l1; l2; unchanged; _]] =>
+      | SL [SS t; SL [SL [SL ran_outs; ran_info; ran_inputs; ran_defaults]; _; l1; l2; unchanged; _; _]] =>
           str_eqb t (s "ok")
           (* (1) *)
           && sx_eqb (SL ran_outs) (SL (map (fun x => SL [SS (fst x); sx_val (snd x)]) (d_out d)))
